@@ -445,3 +445,45 @@ _run_before_r18_7 = run
 def run(ctx):
     _run_before_r18_7(ctx)
     ctx.guard(r18_7)
+
+
+# ------------------------------------------------------------------------------------------------ R18.8
+def r18_8(ctx):
+    """'The state trajectory returned is identical to the one returned without logqp under the same noise' needs, before any
+    step is taken, that the solver is the same solver: the validation phase of sdeint is evaluated (C19's scenario, concrete
+    output times some of which are closer than dt) with and without logqp, and the settings the solver object ends up with
+    -- dt, tolerances, dt_min, adaptive, method class -- are compared."""
+    from fractions import Fraction as F
+    from . import c19
+    rep, model = ctx.rep, ctx.model
+    rep.rule("R18.8", "the solver constructed with logqp=True has the settings (dt, rtol, atol, dt_min, adaptive, class) of the "
+                      "solver constructed without, also when output times are closer than dt")
+    fi = model.func(SDEINT, "sdeint")
+    rep.analysed(fi)
+    for label, ts in (("outputs closer than dt", c19.TSeq((F(0), F(1, 50), F(1, 2), F(1)))),
+                      ("outputs further apart than dt", c19.TSeq((F(0), F(1, 2), F(1))))):
+        got = {}
+        for logqp in (False, True):
+            hooks = c19.ContractHooks()
+            sde = c19.make_user_sde("general", methods=("f", "g", "h"))
+            r = c19.eval_check_contract(model, sde=sde, ts=ts, bm=None, method="euler", dt=F(1, 10), logqp=logqp, hooks=hooks)
+            so = getattr(hooks, "solver", None)
+            if r[0] != "ok" or so is None:
+                raise AnalysisError(f"R18.8: the validation phase (logqp={logqp}, {label}) does not reach the solver: {r[:2]}",
+                                    where=astq.loc(fi))
+            got[logqp] = {k: so.attrs.get(k) for k in ("dt", "rtol", "atol", "dt_min", "adaptive")}
+            got[logqp]["class"] = so.cls.name if so.cls is not None else None
+        diff = [k for k in got[False] if repr(got[False][k]) != repr(got[True][k])]
+        rep.check(not diff, "R18.8", astq.loc(fi), f"{fi.key}::R18.8::{label}",
+                  f"{label}, dt = 1/10: with logqp=True the solver has {diff[0] if diff else ''} = `{got[True].get(diff[0]) if diff else ''}`, "
+                  f"without `{got[False].get(diff[0]) if diff else ''}`: the two solves step on different grids, so the states "
+                  f"returned with logqp are not those returned without", "same solver settings")
+    ctx.floor("R18.8", 2)
+
+
+_run_before_r18_8 = run
+
+
+def run(ctx):
+    _run_before_r18_8(ctx)
+    ctx.guard(r18_8)
